@@ -1212,6 +1212,7 @@ def handleOp (args : List String) : String :=
         s!"{x.name} code={hexOf (natsToBytes x.code)} disp={hexOf (natsToBytes x.display)}"
       else "not-utf8"
     | _, _ => "bad-op"
+  | "cfg.build" :: rest => (cfgBuildOp rest).getD "bad-op"
   | _ => (handleDspOp args).getD "bad-op"
 
 def handle (args : List String) : String :=
